@@ -4,6 +4,7 @@
   the invariants `Expanding.Inv` / `Expanding.Geo` / `Expanding.Shape` and their preservation,
   membership over the queue.  Used by C09 and (through `RotatingCore`) C10.  Core Lean only.
 -/
+import PyProb.Lemmas.GuardCanon
 import PyProb.Model.Expanding
 import PyProb.Lemmas.BloomOps
 
